@@ -1,6 +1,7 @@
 package props
 
 import (
+	"strings"
 	"fmt"
 	"math/rand"
 	"os"
@@ -246,6 +247,21 @@ func c05Messages(r *rand.Rand, i int) []hostileMsg {
 				out = append(out, hostileMsg{Class: "timestamp-extreme", Type: typ, Ts: ts, Payload: p})
 			}
 		}
+		// multi-chunk frames at extreme timestamps (continuation chunks repeat the extended timestamp)
+		for _, ts := range []uint32{0xfffffe, 0xffffff, 0x1000000, 0x7fffffff, 0xfffffff0} {
+			for _, size := range []int{4096, 4097, 8192, 8193, 9000, 12289, 70000} {
+				out = append(out, hostileMsg{Class: "timestamp-extreme/multi-chunk", Type: 9, Ts: ts, Payload: gen.VideoFrame(r, 5, int(ts>>8)+size, size%2 == 0, 0, size)})
+			}
+			out = append(out, hostileMsg{Class: "timestamp-extreme/multi-chunk", Type: 8, Ts: ts, Payload: gen.AudioFrame(r, 5, int(ts>>8), 9000)})
+		}
+		// runs of frames a few milliseconds apart just below 2^32 and across the wrap
+		for _, start := range []uint32{0xffffffd0, 0xffffffe0, 0xfffffff0, 0xfffffff8} {
+			ts := start
+			for k := 0; k < 8; k++ {
+				out = append(out, hostileMsg{Class: "timestamp-extreme/near-wrap-run", Type: 9, Ts: ts, Payload: gen.VideoFrame(r, 5, int(start>>4)+k, k == 0, 0, 60)})
+				ts += uint32(3 + r.Intn(12))
+			}
+		}
 	case 6:
 		// bit-flipped valid frames and headers
 		for k := 0; k < 500; k++ {
@@ -433,7 +449,7 @@ func c05Run(c *fw.Ctx, i int) {
 			hookBefore = h.Count()
 		}
 		ts := ss.ts
-		if hm.Class == "timestamp-extreme" {
+		if strings.HasPrefix(hm.Class, "timestamp-extreme") {
 			ts = hm.Ts
 		}
 		err1 := ss.pub.RC.Send(ref.RtmpMsg{Csid: csidFor(hm.Type), TypeID: hm.Type, StreamID: ss.pub.Msid, Ts: ts, Payload: hm.Payload}, 0)
@@ -441,7 +457,11 @@ func c05Run(c *fw.Ctx, i int) {
 		markerIdx++
 		ss.ts += 40
 		marker := gen.VideoFrame(r, 4, markerIdx, k%10 == 0, 0, 50)
-		err2 := ss.pub.RC.Send(ref.RtmpMsg{Csid: 6, TypeID: 9, StreamID: ss.pub.Msid, Ts: ss.ts, Payload: marker}, 0)
+		markerTs := ss.ts
+		if hm.Class == "timestamp-extreme/near-wrap-run" {
+			markerTs = hm.Ts + 1 // keep the whole run (markers included) just below / across 2^32
+		}
+		err2 := ss.pub.RC.Send(ref.RtmpMsg{Csid: 6, TypeID: 9, StreamID: ss.pub.Msid, Ts: markerTs, Payload: marker}, 0)
 		c.Eval(1)
 		c.Cell("%s/%s", cell.Name, hm.Class)
 		delivered := false
